@@ -19,6 +19,7 @@ var Families = map[string][]string{
 	"C19": {"ping"},
 	"C13": {"arpspoof"},
 	"C14": {"ndspoof"},
+	"C09": {"conc9"},
 	"C07": {"sends", "hosts", "dhcp", "arpspoof", "ndspoof", "ping"},
 }
 
@@ -39,6 +40,8 @@ func Generate(prop, family string, seed uint64, tier string) Scenario {
 		return genNDSpoof(prop, seed, tier)
 	case "sends":
 		return genSends(prop, seed, tier)
+	case "conc9":
+		return genConc9(prop, seed, tier)
 	}
 	panic("unknown family " + family)
 }
@@ -79,6 +82,8 @@ func Driver(sc Scenario, trace bool) func() {
 			runNDSpoof(e)
 		case "sends":
 			runSends(e)
+		case "conc9":
+			runConc9(e)
 		default:
 			e.violate("infra.setup", "family", fmt.Sprintf("unknown family %q", sc.Family))
 		}
